@@ -58,6 +58,9 @@ STATES = {
     "unsynced": [("write", "d1", "late", 1500, 0), ("rm", "d1", "anchor"), ("cmd", "sync", "-B", "1")],
     "bad": [("dmg", "d1"), ("cmd", "scrub", "-p", "full")],
     "rehash": [("cmd", "rehash"), ("write", "d2", "late2", 1200, 0), ("cmd", "sync")],
+    # a range-limited sync leaves the FIRST of the newly recorded files of d1 unsynced, the duplicates recorded after it synced
+    "unsynced-head": [("write", "d1", "late0", 1500, 0), ("writedata", "d1", "late1", "G5", 1024), ("writedata", "d1", "late2", "G5", 1024),
+                      ("writedata", "d2", "late3", "G5", 1024), ("writedata", "d2", "late4", "G4", 2500), ("sync-skip-first-new", "d1", 2)],
     "rehash-partial": [("cmd", "rehash"), ("clock", 11 * 86400), ("cmd", "scrub", "-p", "30")],
 }
 
@@ -350,6 +353,17 @@ def job(j):
             if op[0] == "dmg":
                 c = L.content()
                 F.damage_data_block(L, c, op[1], 0, "whole")
+            elif op[0] == "sync-skip-first-new":
+                c = L.content()
+                used = max([pos for f in c.disks[op[1].encode()].files for _, pos, _ in f.blocks] + [-1]) + 1
+                r = L.run("sync", "-S", str(used + op[2]))
+                c = L.content()
+                fl = c.disks[op[1].encode()].files
+                uns = [i for i, f in enumerate(fl) if f.size and any(st != C.BLK for st, _, _ in f.blocks)]
+                if r.rc != 0 or not uns or not any(f.size and all(st == C.BLK for st, _, _ in f.blocks) for f in fl[uns[0] + 1:]):
+                    raise RuntimeError("state unsynced-head not reached\n" + r.text())
+            elif op[0] in ("writedata", "writeflip"):
+                apply_tree_op(L, op)
             else:
                 X.apply_op(L, op)
         c = L.content()
